@@ -271,12 +271,12 @@ def run(ctx):
         cu = (p == 3 and t % 2 == 0)
         ncells = rng.randint(3, 7)
         r0 = 1
-        nth = rng.choice([6, 7])
+        nth = rng.choice([6, 7, 10, 12, 14])          # (mode numbers of a count that is no power of two are not dyadic fractions times it)
         basis = space_objs(p, ncells, r0, cu)
         rn = np.array(basis.greville, dtype=float)
         eta = [rn, np.arange(nth, dtype=float), np.array([0.0, 1.0])]
         B, C, D, E = rng.choice(POLYS["B"]), rng.choice(POLYS["C"][1:]), rng.choice(POLYS["D"]), rng.choice(POLYS["E"])
-        lNi = [0] if t % 2 else []
+        lNi = [[], [0], [3, -2], [-3, 1]][t % 4]
         solver = DiffEqSolver(2 * p + 8, basis, len(rn), nth, lNeumannIdx=lNi, drFactor=pfun(B), rFactor=pfun(C), ddThetaFactor=pfun(D), rhoFactor=pfun(E))
         gen = spl.BSplines(spl.make_knots(np.arange(ncells + 1, dtype=float) + r0, p, False), p, False, False)
         s1, s2 = spl.Spline1D(gen), spl.Spline1D(gen)
@@ -306,6 +306,10 @@ def run(ctx):
             mI = I if I < (nth + 1) // 2 else I - nth
             if mI not in lNi and abs(P1[I, 0, 0]) > 1e-12:
                 ctx.violation({"kind": "dirichlet-not-zero", "side": "lower"}, "mode %d: value %r at the lower Dirichlet boundary" % (I, complex(P1[I, 0, 0])), {})
+            if mI in lNi and not abs(P1[I, 0, 0]) > 1e-9 * float(np.max(np.abs(P1[I, 0, :]))):
+                ctx.violation({"kind": "neumann-mode-pinned", "nTheta": nth}, "mode %d of %d (m = %d) was requested Neumann at the lower boundary but its solution "
+                              "vanishes there (%r; largest value of the mode %g)" % (I, nth, mI, complex(P1[I, 0, 0]), float(np.max(np.abs(P1[I, 0, :])))),
+                              {"nTheta": nth, "lNeumannIdx": lNi, "p": p, "ncells": ncells})
             if abs(P1[I, 0, -1]) > 1e-12:
                 ctx.violation({"kind": "dirichlet-not-zero", "side": "upper"}, "mode %d: value %r at the upper Dirichlet boundary" % (I, complex(P1[I, 0, -1])), {})
         # mode independence
@@ -322,6 +326,23 @@ def run(ctx):
         if not np.max(np.abs(Pf - P2)) <= 1e-8 * max(1.0, float(np.max(np.abs(P2)))):
             ctx.violation({"kind": "grid-path-vs-function-path"}, "solveEquation(nodal values of a spline rho) and solveEquationForFunction(E*rho) differ by %g" % float(np.max(np.abs(Pf - P2))),
                           {"p": p, "ncells": ncells, "E": E})
+    # a Neumann condition is honoured for EVERY mode number of EVERY mode count (also counts that are no power of two, where
+    # k / n * n need not be k in floating point): the solution of that mode does not vanish at the lower boundary
+    basis = space_objs(3, 5, 1, False)
+    rn = np.array(basis.greville, dtype=float)
+    for nth in ((10, 14) if quick else (6, 10, 12, 14, 18, 20, 24)):
+        eta = [rn, np.arange(nth, dtype=float), np.array([0.0])]
+        for m in range(-(nth // 2), (nth + 1) // 2):
+            solver = DiffEqSolver(10, basis, len(rn), nth, lNeumannIdx=[m], rFactor=lambda r: 1.0)
+            rho_g, phi_g = make_grid(eta), make_grid(eta)
+            rho_g.getAllData()[:] = (1.0 + 0.25 * rn)[None, None, :]
+            solver.solveEquation(phi_g, rho_g)
+            P = np.array(phi_g.getAllData())
+            I = m % nth
+            ctx.count(("neumann-honoured", nth, m))
+            if not abs(P[I, 0, 0]) > 1e-6 * float(np.max(np.abs(P[I, 0, :]))):
+                ctx.violation({"kind": "neumann-mode-pinned", "nTheta": nth}, "mode m = %d of %d was requested Neumann at the lower boundary but its solution vanishes "
+                              "there (%r; largest value of the mode %g)" % (m, nth, complex(P[I, 0, 0]), float(np.max(np.abs(P[I, 0, :])))), {"nTheta": nth, "m": m})
     # refusal of modes that are Neumann on both sides with C = 0; acceptance when C != 0
     basis = space_objs(3, 5, 1, False)
     refused = False
@@ -336,6 +357,10 @@ def run(ctx):
     except Exception as ex:
         ctx.violation({"kind": "well-posed-neumann-refused"}, "Neumann/Neumann with C = 1 was refused: %s" % ex, {})
     ctx.count(("refusal",))
+    try:        # a small C is not a zero C (the test for a null coefficient is exact)
+        DiffEqSolver(10, basis, basis.nbasis, 8, lNeumannIdx=[0], uNeumannIdx=[0], rFactor=lambda r: 2e-9)
+    except Exception as ex:
+        ctx.violation({"kind": "well-posed-neumann-refused", "small_C": True}, "Neumann/Neumann with C = 2e-9 was refused: %s" % ex, {})
     try:        # C vanishes on part of the domain only: the constant is fixed, the problem is well posed
         DiffEqSolver(10, basis, basis.nbasis, 8, lNeumannIdx=[0], uNeumannIdx=[0], rFactor=lambda r: 0.0 if r < 3.0 else 1.0)
     except Exception as ex:
